@@ -235,8 +235,8 @@ macro_rules! wrapper_harnesses {
                     } else {
                         kani::assert(r.is_ok(), "C07: context of at most 255 bytes rejected");
                         kani::assert(SIGN_CALLS == 1, "wiring: SIGN_CALLS == 1");
-                        kani::assert(REC_CTX_LEN == n && REC_CTX_PTR == ctx.as_ptr() as usize, "C07: context not passed through unchanged");
-                        kani::assert(REC_MSG_LEN == 3 && REC_MSG_PTR == msg.as_ptr() as usize, "C03: message not passed through unchanged");
+                        kani::assert(REC_CTX_LEN == n && REC_CTX_PTR == ctx.as_ptr() as usize, "C07/C06/C03: context not passed through unchanged");
+                        kani::assert(REC_MSG_LEN == 3 && REC_MSG_PTR == msg.as_ptr() as usize, "C03/C06: message not passed through unchanged");
                         kani::assert(REC_RND == rng.bytes, "C12: rnd is not the 32 bytes drawn");
                         kani::assert(REC_OID_LEN == 0 && REC_PHM_LEN == 0 && !REC_NIST, "C03: pure mode must use domain 0 with no OID / pre-hash");
                         kani::assert(REC_PARAMS == PARAMS && !REC_CTEST, "C03: parameter wiring");
@@ -288,7 +288,7 @@ macro_rules! wrapper_harnesses {
                     } else {
                         kani::assert(r.is_ok(), "wiring: r.is_ok()");
                         kani::assert(SIGN_CALLS == 1, "wiring: SIGN_CALLS == 1");
-                        kani::assert(REC_CTX_LEN == n && REC_CTX_PTR == ctx.as_ptr() as usize, "C07: context not passed through unchanged");
+                        kani::assert(REC_CTX_LEN == n && REC_CTX_PTR == ctx.as_ptr() as usize, "C07/C06/C03: context not passed through unchanged");
                         kani::assert(REC_RND == rng.bytes, "C12: rnd is not the 32 bytes drawn");
                         kani::assert(!REC_NIST && REC_PARAMS == PARAMS && !REC_CTEST, "wiring: !REC_NIST && REC_PARAMS == PARAMS && !REC_CTEST");
                         kani::assert(prehash_is_spec(sel, 3), "C03/C06: OID or pre-hash of the message differ from FIPS 204 Alg. 4");
@@ -338,7 +338,7 @@ macro_rules! wrapper_harnesses {
                     } else {
                         kani::assert(VERIFY_CALLS == 1, "wiring: VERIFY_CALLS == 1");
                         kani::assert(r == VERIFY_ANSWER, "C02: wrapper does not return Verify_internal's decision");
-                        kani::assert(REC_CTX_LEN == n && REC_CTX_PTR == ctx.as_ptr() as usize, "C07: context not passed through unchanged");
+                        kani::assert(REC_CTX_LEN == n && REC_CTX_PTR == ctx.as_ptr() as usize, "C07/C06/C02: context not passed through unchanged");
                         kani::assert(REC_SIG_PTR == &sig as *const [u8; $sig] as usize && REC_KEY_PTR == &key as *const S::PublicKey as usize, "wiring: REC_SIG_PTR == &sig as *const [u8; $sig] as usize && REC_KEY_PTR == &k");
                         kani::assert(!REC_NIST && REC_PARAMS == PARAMS, "wiring: !REC_NIST && REC_PARAMS == PARAMS");
                         kani::assert(REC_DIMS == [$k, $l, $ld4, $pk, $sig, $w1], "C02: size wiring");
